@@ -26,20 +26,21 @@ impl Instant {
         self.duration_since(earlier)
     }
     pub fn checked_add(&self, d: Duration) -> Option<Instant> {
-        Some(Instant(self.0 + d.as_nanos() as u64))
+        u64::try_from(d.as_nanos()).ok().and_then(|n| self.0.checked_add(n)).map(Instant)
     }
 }
 
 impl Add<Duration> for Instant {
     type Output = Instant;
     fn add(self, d: Duration) -> Instant {
-        Instant(self.0 + d.as_nanos() as u64)
+        // as std: the sum must be representable
+        self.checked_add(d).expect("overflow when adding duration to instant")
     }
 }
 impl Sub<Duration> for Instant {
     type Output = Instant;
     fn sub(self, d: Duration) -> Instant {
-        Instant(self.0.saturating_sub(d.as_nanos() as u64))
+        Instant(self.0.saturating_sub(crate::sched::nanos_sat(d)))
     }
 }
 impl Sub<Instant> for Instant {
